@@ -54,6 +54,9 @@ const SOURCES: &[Source] = &[
     // a list parsed with a non-default permission: the per-rule permissions live in a field of their
     // own, next to the bins they describe (the two can be made to disagree)
     Source { name: "scriptlet-permissions", rules: &["x.com##+js(s1, a)", "x.com##.banner", "x.com#@#+js(s2)", "y.com##+js(s1)", "y.com##+js(s2, b)"], debug: false, optimize: true, tags: &[], perm: 1 },
+    // fusable tagged rules with debug texts, optimised: the tagged list is rebuilt (and fused) whenever
+    // the receiving engine switches tags, from whatever the buffer said about each rule
+    Source { name: "tagged+fused+debug", rules: &["adv$tag=a", "advert$tag=a", "advice$tag=a", "@@adv1$tag=a", "@@adv2$tag=a"], debug: true, optimize: true, tags: &["a"], perm: 0 },
 ];
 
 fn resources() -> Vec<adblock::resources::Resource> {
@@ -82,7 +85,7 @@ fn valid_buffer(i: usize) -> Vec<u8> {
 fn preloaded() -> Engine {
     let mut e = Engine::from_rules_parametrised(["||pre.com^", "pre*loaded$tag=p", "pre.com##.pre", "pre.com##+js(s1, x)", "@@||pre.com/ok"], Default::default(), true, true);
     vh::net::never_discard(&mut e);
-    e.use_tags(&["p"]);
+    e.use_tags(&["p", "a"]);
     e.use_resources(resources());
     e
 }
@@ -196,7 +199,7 @@ impl Faults {
         let n = buf.len() as u64;
         let s = st.len() as u64;
         let bits = 8 * n;
-        Faults { n_flip2: if pairs { bits * (bits - 1) / 2 } else { 0 }, n_str: strs.len() as u64 * STR_MENU.len() as u64, strs, n_prefix: n, n_flip: 8 * n, n_sub: s * MENU.len() as u64, n_huge: s * HUGE.len() as u64, n_version: 255, n_pairs: if pairs { s * (s - 1) / 2 * 36 } else { 0 }, buf, st }
+        Faults { n_flip2: if pairs { bits * (bits - 1) / 2 } else { 0 }, n_str: strs.len() as u64 * (STR_MENU.len() as u64 + 1), strs, n_prefix: n, n_flip: 8 * n, n_sub: s * MENU.len() as u64, n_huge: s * HUGE.len() as u64, n_version: 255, n_pairs: if pairs { s * (s - 1) / 2 * 36 } else { 0 }, buf, st }
     }
     fn total(&self) -> u64 {
         self.n_prefix + self.n_flip + self.n_sub + self.n_huge + self.n_version + self.n_str + self.n_pairs + self.n_flip2
@@ -237,8 +240,16 @@ impl Faults {
         }
         i -= self.n_version;
         if i < self.n_str {
-            let (start, total) = self.strs[(i / STR_MENU.len() as u64) as usize];
-            let rep = STR_MENU[(i % STR_MENU.len() as u64) as usize];
+            let per = STR_MENU.len() as u64 + 1;
+            let (start, total) = self.strs[(i / per) as usize];
+            if i % per == STR_MENU.len() as u64 {
+                // the whole string value replaced by nil (an optional field made absent)
+                let mut v = b[..start].to_vec();
+                v.push(0xc0);
+                v.extend_from_slice(&b[start + total..]);
+                return (format!("replace-string[offset {} := nil]", start), v);
+            }
+            let rep = STR_MENU[(i % per) as usize];
             let mut v = b[..start].to_vec();
             v.push(0xa0 | rep.len() as u8);
             v.extend_from_slice(rep.as_bytes());
@@ -449,6 +460,13 @@ fn execute(e: &mut Engine, pre_answers: &Battery, pre_bytes: &[u8], faulty: &[u8
         Ok(true) => {
             let after = catch(|| {
                 let _ = run_battery(e, &net, &cos);
+                // the loaded engine is a live engine: switching tags rebuilds its tagged list from
+                // the loaded rules
+                e.use_tags(&["a", "b"]);
+                let _ = run_battery(e, &net, &cos);
+                e.enable_tags(&["p"]);
+                e.disable_tags(&["a"]);
+                let _ = run_battery(e, &net[..net.len().min(12)], &cos[..1]);
                 e.serialize_raw().is_ok()
             });
             match after {
@@ -625,7 +643,7 @@ fn record(buffer: usize, f: &Src, res: ShardResult, l: &mut Local) {
 
 fn check(ctx: &Ctx) -> i32 {
     let buffers: Vec<usize> = match ctx.tier {
-        Tier::Quick => vec![0, 1, 2, 5, 12],
+        Tier::Quick => vec![0, 1, 2, 5, 12, 13],
         Tier::Thorough => (0..SOURCES.len()).collect(),
     };
     let pair_buffers: Vec<usize> = if ctx.tier == Tier::Thorough { vec![5, 6, 0] } else { vec![] };
